@@ -14,7 +14,8 @@ RULE = ('Hypothesis documents: profile "full" exported in the four non-agnostic 
         'selection and 4 drawn category selections that keep DURATION or PITCH.  Oracles: (1) output-vs-output '
         'relations on kernpy\'s own texts: kern = ekern, bkern = bekern, akern = aekern with "@" and the middle dot '
         'removed (cell by cell), bekern = ekern with every chord member cut at its first decoration separator, same '
-        'row/column shape and chord sizes; (2) every encoding equals kv/xform.py T applied to the aligned eKern grid '
+        'row/column shape and chord sizes; the same six texts must come out of ONE ExportOptions object (one category '
+        'set) whose encoding is switched through a drawn permutation of the encodings and back; (2) every encoding equals kv/xform.py T applied to the aligned eKern grid '
         '(headers "**"+prefix+type, non-note cells identical, basic = decorations removed member by member, agnostic '
         '= pitch letters converted under the clef in force).  Non-trivial: the document has a chord in which a '
         'non-final member carries a signifier, or at least three encodings give pairwise different texts for some '
@@ -27,7 +28,8 @@ KEEP = [['DURATION'], ['PITCH'], ['NOTE_REST'], ['CORE'], ['DURATION', 'PITCH']]
 
 @st.composite
 def cases(draw, prof):
-    doc = draw(D.documents(D.profile(prof, kern_weight=5)))
+    doc = draw(D.documents(D.profile(prof, kern_weight=5, hidden_bars=True)))
+    order = draw(st.permutations(ENCS6 if prof == 'agnostic' else ENCS4))
     sels = []
     for _ in range(4):
         inc = draw(st.one_of(st.none(), st.lists(st.sampled_from(cats.ALL), max_size=6, unique=True)))
@@ -36,7 +38,7 @@ def cases(draw, prof):
         if inc is not None:
             inc = inc + draw(st.sampled_from(KEEP))
         sels.append([inc, exc])
-    return {'doc': doc, 'sels': sels, 'agnostic': prof == 'agnostic'}
+    return {'doc': doc, 'sels': sels, 'agnostic': prof == 'agnostic', 'order': list(order)}
 
 
 def bekern_of(ekern_cell):
@@ -78,6 +80,21 @@ def check(case):
         grids = {e: K.grid(out[e]) for e in encs}
         evals += len(encs)
         tag = f'include={inc} exclude={exc}'
+        # one Exporter, ONE options object (and so one category set) whose encoding is changed between exports, in a
+        # drawn order and back: every text must be the one a fresh call gives for that encoding
+        okw = {k: v for k, v in kw.items()}
+        opts = kp.core.generic.Generic.parse_options_to_ExportOptions(**okw)
+        ex1 = kp.Exporter()
+        order = [e for e in case.get('order', encs) if e in encs]
+        for e in order + order[::-1]:
+            opts.kern_type = K.ENCODINGS[e]
+            try:
+                g1 = ex1.export_string(kdoc, opts)
+            except Exception as ex_:  # noqa
+                raise Bad('options-object-sequence-raised', f'{e} in the sequence {order + order[::-1]} with one options object raised {ex_!r} ({tag})')
+            if g1 != out[e]:
+                raise Bad('options-object-sequence', f'{e} exported with an options object that exported {order + order[::-1]} in turn differs from a fresh export ({tag})\n--- fresh\n{out[e]}--- sequence\n{g1}')
+        evals += 2 * len(order)
         # (1) output-vs-output
         for plain, ext in (('kern', 'ekern'), ('bkern', 'bekern'), ('akern', 'aekern')):
             if plain not in grids:
